@@ -1445,7 +1445,9 @@ func (h *RequestHeader) ResetSkipNormalize() {
 	h.noDefaultContentType = false
 
 	h.contentLength = 0
-	h.contentLengthBytes = h.contentLengthBytes[:0]
+	// (nil, not [:0]: Peek("Content-Length") tells a dropped value, empty, from an absent
+	// one, nil, and a request that carries none must not inherit "present")
+	h.contentLengthBytes = nil
 
 	h.method = h.method[:0]
 	h.requestURI = h.requestURI[:0]
@@ -1614,14 +1616,24 @@ func appendArg(args []argsKV, key, value string, noValue bool) []argsKV {
 	return args
 }
 
+// presentOrNil gives nil for a field kept in a slot of its own that holds nothing: the
+// slots are emptied with [:0] when the header is reset, which must not make the field
+// look present in a request that does not carry it (PeekAll reads them the same way).
+func presentOrNil(v []byte) []byte {
+	if len(v) == 0 {
+		return nil
+	}
+	return v
+}
+
 func (h *RequestHeader) peek(key string) []byte {
 	switch key {
 	case consts.HeaderHost:
-		return h.Host()
+		return presentOrNil(h.Host())
 	case consts.HeaderContentType:
-		return h.ContentType()
+		return presentOrNil(h.ContentType())
 	case consts.HeaderUserAgent:
-		return h.UserAgent()
+		return presentOrNil(h.UserAgent())
 	case consts.HeaderConnection:
 		if h.ConnectionClose() {
 			return bytestr.StrClose
